@@ -262,6 +262,14 @@ theorem operators_closed (a : Addr) (op : Op) (h : a.WF) :
   · intro e he
     exact checked_err _ _ _ _ he
 
+/-- non-vacuity of `operators_exact` / `operators_closed`: a success, both kinds of failure, and
+    the exact results they are compared with -/
+example : (Op.add 1).run ⟨4, 4294967295⟩ = .error .index ∧ (Op.add 1).exact ⟨4, 4294967295⟩ = 4294967296 ∧
+    (Op.rsub 3).run ⟨6, 4⟩ = .error .index ∧ (Op.rsub 3).exact ⟨6, 4⟩ = -1 ∧
+    (Op.shl 4).run ⟨4, 3⟩ = .ok ⟨4, 48⟩ ∧ (Op.shl 4).exact ⟨4, 3⟩ = 48 ∧
+    (Op.and_ (.int (-2))).run ⟨6, 7⟩ = .ok ⟨6, 6⟩ ∧ (Op.xor_ (.int (-2))).run ⟨6, 7⟩ = .error .addrFormat ∧
+    (Op.xor_ (.int (-2))).exact ⟨6, 7⟩ = -7 := by decide
+
 /-! ### the integer branch of the constructor -/
 
 /-- explicit version 4 or 6: exactly `0 .. 2^width-1` is accepted, with exactly that value and
